@@ -841,3 +841,75 @@ func (p *Program) matchesLoopHaltUnsoundness() bool {
 	walk(p.Body, map[string]bool{})
 	return found && hasPanic
 }
+
+// matchesLoopReturnJumpGap is the predicate of finding FS39: a loop body consumes a resource declared outside the loop on a
+// path that then returns (legal), and the same loop body also contains a break/continue. Because of the jump the body is not
+// "definitely returned" for the merge after the loop and the consumption is kept as a potential invalidation.
+func (p *Program) matchesLoopReturnJumpGap() bool {
+	found := false
+	var consumes func(ss []Stmt, outer map[string]bool) bool
+	consumes = func(ss []Stmt, outer map[string]bool) bool {
+		for _, s := range ss {
+			switch s.K {
+			case "destroy", "consume":
+				if outer[s.V] {
+					return true
+				}
+			case "move", "arr", "iflet":
+				for _, v := range s.S {
+					if outer[v] {
+						return true
+					}
+				}
+			}
+			if s.K != "fun" && (consumes(s.A, outer) || consumes(s.B, outer)) {
+				return true
+			}
+		}
+		return false
+	}
+	var hasJump func(ss []Stmt) bool
+	hasJump = func(ss []Stmt) bool {
+		for _, s := range ss {
+			if s.K == "break" || s.K == "continue" {
+				return true
+			}
+			if s.K != "fun" && s.K != "while" && s.K != "for" && (hasJump(s.A) || hasJump(s.B)) {
+				return true
+			}
+		}
+		return false
+	}
+	var walk func(ss []Stmt, declared map[string]bool)
+	walk = func(ss []Stmt, declared map[string]bool) {
+		local := map[string]bool{}
+		for k := range declared {
+			local[k] = true
+		}
+		for _, s := range ss {
+			switch s.K {
+			case "new", "move", "arr":
+				local[s.V] = true
+			case "while", "for":
+				if consumes(s.A, local) && hasJump(s.A) {
+					found = true
+				}
+			case "fun":
+				walk(s.A, map[string]bool{})
+				continue
+			}
+			if s.K == "iflet" {
+				l2 := map[string]bool{s.V: true}
+				for k := range local {
+					l2[k] = true
+				}
+				walk(s.A, l2)
+			} else {
+				walk(s.A, local)
+			}
+			walk(s.B, local)
+		}
+	}
+	walk(p.Body, map[string]bool{})
+	return found
+}
